@@ -15,17 +15,24 @@ RULE = ("seeded structured generator: block size, block count, per-block state (
         "and data placement, optional parent image, disk size not a multiple of the block size; requests are "
         "block-edge±1, tail, full and random reads issued as one history on one stream. A case counts as "
         "non-trivial when the model reports WF, the image has at least two different block states (or a "
-        "non-identity placement) and at least one request crosses a block boundary; distinct = distinct recipe hash.")
+        "non-identity placement) and at least one request crosses a block boundary; distinct = distinct recipe hash. Directed families, "
+        "present in every run: header version dword 1.1 / 1.0 (header size 0x180) / 1.2 / 1.<random minor> (the reader takes every field from "
+        "fixed offsets; VirtualBox accepts every minor of major 1); histories in which the file object is moved between two requests that are "
+        "physically consecutive (inside one block larger than the buffer, or in two blocks that follow each other in the file): by somebody else "
+        "seeking / reading the file object (core op \"x\"), by a second VDI object opened on the same file object (op \"y\"), also read alternately; "
+        "random histories: every second one carries \"x\" operations between its requests.")
 ASSUMPTIONS = ["array('i') is little-endian 32-bit (x86-64 host)", "dissect.util AlignedStream as transcribed in Hv/Stream.lean",
                "dissect.cstruct parsing (layouts re-probed on every run)"]
 TIMEOUT_CASE = 20.0
 
 
-def vdi_header(blocks_off, data_off, disk_size, block_size, nblocks, nalloc, sector=512):
+def vdi_header(blocks_off, data_off, disk_size, block_size, nblocks, nalloc, sector=512, version=0x00010001, itype=1):
+    """version dword = (major << 16) | minor. 1.1 = VDIHEADER1PLUS (0x190 bytes from 0x48 on), 1.0 = VDIHEADER1 (0x180 bytes: without
+    the LCHS geometry at the end); every field the reader needs sits at the same offset in both"""
     h = bytearray(512)
     txt = b"<<< Oracle VM VirtualBox Disk Image >>>\n"
     h[0:len(txt)] = txt
-    struct.pack_into("<IIIII", h, 0x40, 0xBEDA107F, 0x00010001, 0x190, 1, 0)
+    struct.pack_into("<IIIII", h, 0x40, 0xBEDA107F, version, 0x180 if version & 0xFFFF == 0 else 0x190, itype, 0)
     struct.pack_into("<II", h, 0x154, blocks_off, data_off)
     struct.pack_into("<IIII", h, 0x15C, 0, 0, 0, sector)
     struct.pack_into("<Q", h, 0x170, disk_size)
@@ -78,7 +85,7 @@ def build_image(r):
         data_off = 512 + r["pad"]
         blocks_off = data_off + nphys * bs + r["pad"]
     im = Image()
-    im.put_hex(0, vdi_header(blocks_off, data_off, r["size"], bs, nb, sum(1 for b in bmap if b >= 0)))
+    im.put_hex(0, vdi_header(blocks_off, data_off, r["size"], bs, nb, sum(1 for b in bmap if b >= 0), version=r.get("version", 0x00010001), itype=r.get("itype", 1)))
     im.put_hex(blocks_off, b"".join(struct.pack("<i", b) for b in bmap))
     for b in bmap:
         if b >= 0:
@@ -86,6 +93,15 @@ def build_image(r):
     end = max(blocks_off + 4 * nb, data_off + nphys * bs)
     im.finish(end + r["pad"])
     return im, data_off
+
+
+def header_fields(r):
+    """(name, file offset, width) of every size-like header field (all little-endian) and of the first / last block map entry"""
+    nb = len(r["map"])
+    blocks_off = 512 + r["pad"] if r["map_first"] else struct.unpack_from("<I", build_image(r)[0].read_at(0x154, 4))[0]
+    return [("HeaderSize", 0x48, 4), ("ImageType", 0x4C, 4), ("BlocksOffset", 0x154, 4), ("DataOffset", 0x158, 4), ("SectorSize", 0x168, 4),
+            ("DiskSize", 0x170, 8), ("BlockSize", 0x178, 4), ("BlockExtraData", 0x17C, 4), ("BlocksInHDD", 0x180, 4), ("BlocksAllocated", 0x184, 4),
+            ("map[0]", blocks_off, 4), (f"map[{nb - 1}]", blocks_off + 4 * (nb - 1), 4)], "little"
 
 
 class Truth:
@@ -153,6 +169,115 @@ def generate(seed: int, tier: str):
         r = gen_recipe(rng, tier, big=big)
         align = rng.choice([8192] * 6 + [512, 4096, 65536, 1 << 20, 1536])
         cases.append({"id": f"g{i}", "recipe": r, "align": align, "queries": gen_queries(rng, r, 10 if tier == "quick" else 16)})
+    # between the requests of every second random history somebody else uses the file object (own random stream: the cases above do not move)
+    drng = random.Random(f"C05/disturb/{seed}/{tier}")
+    for i, c in enumerate(cases):
+        if i % 2 == 1:
+            c["queries"] = core.disturbances(drng, c["queries"], build_image(c["recipe"])[0].size)
+    cases += directed(seed, tier)
+    return cases
+
+
+VERSIONS = [0x00010001, 0x00010000, 0x00010000, 0x00010002, "minor"]
+
+
+def map_recipe(rng, bs, bmap, **kw):
+    r = {"bs": bs, "size": len(bmap) * bs, "map": list(bmap), "map_first": rng.random() < 0.8, "pad": rng.choice([0, 0, 512, 4096, 7]),
+         "seed": rng.randrange(256), "parent": None}
+    r.update(kw)
+    return r
+
+
+def successor_map(rng, nb):
+    """a block map with at least one pair of virtual blocks (v1, v2), v2 != v1 + 1 allowed, whose physical blocks follow each other
+    in the file; returns (map, [(v1, v2) ...])"""
+    while True:
+        states = [rng.choice("aaazu") for _ in range(nb)]
+        nalloc = states.count("a")
+        if nalloc < 2:
+            continue
+        phys = list(range(nalloc))
+        rng.shuffle(phys)
+        it = iter(phys)
+        bmap = [(-2 if s == "z" else (-1 if s == "u" else next(it))) for s in states]
+        where = {p: v for v, p in enumerate(bmap) if p >= 0}
+        pairs = [(where[p], where[p + 1]) for p in range(nalloc - 1)]
+        return bmap, pairs
+
+
+def moved_handle_history(rng, r, align, how, fsize):
+    """(1) a request served from the file through this object, (2) the file object is moved by somebody else, (3) a request whose
+    data starts in the file exactly where (1) stopped reading. how: "xseek" / "xread" / "xend" (the caller uses the file object),
+    "twin" (a second VDI object on the same file object reads elsewhere), "twin-alt" (both objects walk on in turns)."""
+    bs, size = r["bs"], r["size"]
+    qs = [["s", 0, 2]]
+    if bs >= 2 * align:
+        # inside one allocated block, buffer by buffer
+        per = bs // align
+        A = rng.choice([v for v, p in enumerate(r["map"]) if p >= 0])
+        i = rng.randrange(per - 1)
+        j = rng.randrange(1, per - i)
+        first = [A * bs + i * align, j * align]
+        nxt = A * bs + (i + j) * align
+        step = align
+    else:
+        # two virtual blocks whose physical blocks follow each other (requires block-aligned buffers: align divides bs)
+        v1, v2 = rng.choice(r["pairs"])
+        first = [v1 * bs + bs - align, align] if align <= bs else [v1 * bs, bs]
+        nxt = v2 * bs
+        step = min(align, bs)
+    if how == "twin-alt":
+        p = first[0]
+        for k in range(12):
+            if p >= size:
+                break
+            qs.append(["o" if k % 2 == 0 else "y", p, step])
+            if k % 2 == 1 or rng.random() < 0.5:
+                p += step
+        return qs
+    qs.append(["o"] + first)
+    if how == "xseek":
+        qs.append(["x", "seek", rng.randrange(fsize)])
+    elif how == "xread":
+        qs.append(["x", "read", rng.choice([1, 4, 512, 4096])])
+    elif how == "xend":
+        qs.append(["x", rng.choice(["end", "start"])])
+    elif how == "twin":
+        qs.append(["y", rng.randrange(size), rng.choice([1, 512, align, bs])])
+    ln = rng.choice([1, step, step + 1, bs, rng.randrange(1, 2 * bs + 2)])
+    qs += [["o", nxt, ln]] if rng.random() < 0.7 else [["s", nxt, 0], ["r", ln]]
+    return qs
+
+
+def directed(seed, tier):
+    """families that every run contains (fixed shapes; only details are drawn, from a stream of their own)"""
+    rng = random.Random(f"C05/directed/{seed}/{tier}")
+    cases = []
+    nq = 8 if tier == "quick" else 16
+
+    def add(fam, r, align, queries):
+        r["family"] = fam
+        cases.append({"id": f"d{len(cases)}-{fam}", "recipe": r, "align": align, "queries": queries})
+    # ---- header versions (the reader ignores the field; every 1.x is a valid image)
+    for rep in range(4 if tier == "quick" else 12):
+        for ver in VERSIONS:
+            r = gen_recipe(rng, tier, allow_parent=(rep % 2 == 1))
+            v = (0x00010000 | rng.choice([3, 7, 0x100, 0xFFFF, rng.randrange(0x10000)])) if ver == "minor" else ver
+            r["version"] = v
+            # image type: 1 normal (dynamic), 2 fixed (every block allocated), 4 differencing (has a parent); readers go by the map only
+            r["itype"] = 4 if r.get("parent") else (2 if all(b >= 0 for b in r["map"]) else 1)
+            if r.get("parent"):
+                r["parent"]["version"] = rng.choice([0x00010001, 0x00010000, v])
+            add("version-%d.%d" % (v >> 16, v & 0xFFFF) if ver != "minor" else "version-1.x", r, rng.choice([8192, 8192, 512, 65536]), gen_queries(rng, r, nq))
+    # ---- the file object is moved between two physically consecutive reads
+    for rep in range(1 if tier == "quick" else 4):
+        for bs, align in ((8192, 512), (65536, 8192), (65536, 4096), (1 << 20, 65536), (4096, 4096), (512, 512), (4096, 512), (65536, 65536)):
+            for how in ("xseek", "xread", "xend", "twin", "twin-alt"):
+                nb = rng.choice([3, 4, 6, 9]) if bs < (1 << 20) else 3
+                bmap, pairs = successor_map(rng, nb)
+                r = map_recipe(rng, bs, bmap, pairs=pairs)
+                qs = moved_handle_history(rng, r, align, how, build_image(r)[0].size)
+                add(f"hist-{how}", r, align, qs + gen_queries(rng, r, 3))
     return cases
 
 
@@ -173,7 +298,13 @@ def build(case):
     states = {("z" if b == -2 else "u" if b == -1 else "a") for b in r["map"]}
     alloc = [b for b in r["map"] if b >= 0]
     branches = sorted(states) + (["parent"] if r.get("parent") else []) + (["permuted"] if alloc != sorted(alloc) or alloc != list(range(len(alloc))) else [])
-    crosses = any(q[0] == "o" and q[2] > 0 and (q[1] // r["bs"]) != ((min(q[1] + q[2], r["size"]) - 1) // r["bs"]) and q[1] < r["size"] for q in case["queries"])
+    if r.get("family"):
+        branches.append("directed:" + r["family"])
+    if any(q[0] == "x" for q in case["queries"]):
+        branches.append("handle-moved")
+    if core.has_twin(case["queries"]):
+        branches.append("two-objects")
+    crosses = any(q[0] in ("o", "y") and q[2] > 0 and (q[1] // r["bs"]) != ((min(q[1] + q[2], r["size"]) - 1) // r["bs"]) and q[1] < r["size"] for q in case["queries"])
     return Built(files, truth, {"branches": branches, "crosses": crosses, "in_scope": True})
 
 
@@ -183,13 +314,21 @@ def impl_run(case, built):
     v = VDI(built.files["a"].open(), parent)
     if v.align != case["align"]:
         raise RuntimeError(f"stream align {v.align} != case align {case['align']}")
-    return core.impl_ops(v, case["queries"])
+    def twin():
+        # VDI.__init__ parses the header at the CURRENT position of the file object (it never seeks to 0): a caller who opens a
+        # second object on a used handle has to rewind it first
+        v.fh.seek(0)
+        return VDI(v.fh, parent)
+    return core.impl_ops(v, case["queries"], raw=v.fh, twin=twin)
 
 
 def model_lines(case, built):
     pid = "p" if "p" in built.files else "-"
-    return core.file_lines(built.files) + [f"vdi.open a {pid}",
-                                           f"vdi.stream a {pid} {case['align']} " + " ".join(core.op_tokens(case["queries"]))]
+    lines = core.file_lines(built.files) + [f"vdi.open a {pid}",
+                                            f"vdi.stream a {pid} {case['align']} " + " ".join(core.op_tokens(case["queries"]))]
+    if core.has_twin(case["queries"]):      # the second VDI object on the same file: a model run of its own (the model has no shared handle state)
+        lines.append(f"vdi.stream a {pid} {case['align']} " + " ".join(core.twin_tokens(case["queries"])))
+    return lines
 
 
 def model_parse(case, built, out):
@@ -197,6 +336,8 @@ def model_parse(case, built, out):
     if out and out[0].startswith("ok"):
         wf = "wf=1" in out[0]
     ans = core.parse_stream_answer(out[1]) if len(out) > 1 else None
+    if core.has_twin(case["queries"]):
+        ans = core.merge_twin(case["queries"], ans, core.parse_stream_answer(out[2]) if len(out) > 2 else None)
     return {"answers": ans, "wf": wf, "open": out[0] if out else None}
 
 
